@@ -411,6 +411,21 @@ func main() {
 	if o.Thorough() {
 		bigSizes = append(bigSizes, 1<<20, 3<<20+17)
 	}
+	// very large incompressible payloads just above 2^24 (and 2^25): sizes at which a 32-bit product of a length
+	// with a one-byte factor wraps; round trip only, judged by the property oracle
+	hugeSizes := []int{1<<24 + 4096}
+	if o.Thorough() {
+		hugeSizes = append(hugeSizes, 1<<24+60000, 1<<25+8192, 1<<25+100000)
+	}
+	for _, n := range hugeSizes {
+		for _, comp := range formats {
+			if comp == 2 && !o.Thorough() {
+				continue // gzip of 16 MiB: thorough tier only
+			}
+			addBigSer(run, n, comp, -1, uint8(rng.Intn(2)))
+			run.Count("size:huge")
+		}
+	}
 	for _, n := range bigSizes {
 		for _, comp := range formats {
 			for _, cks := range []uint8{0, 1} {
